@@ -30,7 +30,10 @@ TREE = OBJ(f"{TT}::TokenTree", public_key=PK, elements=DICTOBJ(BYTES, TOKEN, whe
 DB = EFFECT("database", get_attestations_over={"returns": EXPR("['ATT'][:n_att]")}, get_authority={"returns": EXPR("auth")},
             insert_attestation={}, insert_token={}, insert_metadata={})
 PSEUDO = OBJ(f"{IM}::PseudonymManager", tree=TREE, database=DB)
-MYPEER = OBJ("ipv8/peer.py::Peer", public_key=PK, key=ANY)
+# our own key pair: the private half serialises to something else than the public half (different text prefix; modelled as a free byte
+# string), so code that compares an AUTHORITY with the private serialisation can never match what is stored
+MYPEER = OBJ("ipv8/peer.py::Peer", public_key=PK,
+             key=OBJ("ipv8/keyvault/private/openssl.py::OpenSSLSK", ec=OBJ("contracts/common.py::RustPrivateKeyModel", secret=BYTES)))
 META = OBJ("ipv8/attestation/identity/metadata.py::Metadata", token_pointer=BYTES_N(32), serialized_json_dict=BYTES)
 
 
@@ -79,13 +82,14 @@ def should_sign_spec(tx, known, pointer_known, attr_hash, subject_key, now, alre
 SS_VARS = {"name": STR, "date": REAL, "schema": STR, "xv": STR,
            "TX": EXPR("mk_tx(has_name, has_date, has_schema, n_extra, name, date, schema, xv)"),
            "h1": BYTES_N(32), "h2": BYTES_N(32), "n1": STR, "n2": STR, "t1": REAL, "t2": REAL, "k1": BYTES, "k2": BYTES, "m1": STR,
-           "KNOWN": EXPR("mk_known(n_known, h1, h2, (n1, t1, k1, {'x': m1} if meta1 else None), (n2, t2, k2, None))"),
+           # registered extra metadata: None (anything goes), {} (exactly no extra metadata) or one fixed entry
+           "KNOWN": EXPR("mk_known(n_known, h1, h2, (n1, t1, k1, [None, {'x': m1}, {}][meta1]), (n2, t2, k2, None))"),
            "NOW": REAL, "auth": BYTES,
            "self": OBJ(f"{IC}::IdentityCommunity", known_attestation_hashes=EXPR("KNOWN"), my_peer=MYPEER, logger=LOGGER()),
            "pseudonym": PSEUDO, "metadata": META}
 SS_SHAPES = [{"has_name": a, "has_date": b, "has_schema": c, "n_extra": e, "n_known": k, "meta1": m, "n_att": t}
              for (a, b, c) in ((True, True, True), (False, True, True), (True, False, True), (True, True, False))
-             for e in (0, 1) for k in (0, 1, 2) for m in ((False, True) if k else (False,)) for t in (0, 1)
+             for e in (0, 1) for k in (0, 1, 2) for m in ((0, 1, 2) if k else (0,)) for t in (0, 1)
              if (a and b and c) or (e == 0 and t == 0 and k == 1 and not m)]
 contract(f"{IC}::IdentityCommunity.should_sign", "should_sign==spec", vars=SS_VARS, instances=SS_SHAPES,
          requires=["freeze_time(NOW)", "implies(n_known == 2, h1 != h2)",
